@@ -64,13 +64,21 @@ def shards(tier, seed):
 def universe(seed, uid):
     rng = core.rng_for(seed, PROP, 'uni%d' % uid)
     o = gen.Opts(max_types=3, nested_arrays=0.0, styles=('wrapped', 'wrapped', 'bare'), multi_return=False, methods=(2, 3), services=(1, 1),
-                 attrs=True)
+                 attrs=True, defaults=True)
     ir = gen.rand_universe(rng, o, uid=uid)
     for sd in ir['services']:
         for md in sd['methods']:
             md['returns'] = []          # sinks: nothing to serialize, nothing that can fail
             if md['style'] == 'out_bare':
                 md['style'] = 'wrapped'
+    return ir
+
+
+def inheritance_universe():
+    ir = gen.inheritance_ir()
+    for sd in ir['services']:
+        for md in sd['methods']:
+            md['returns'] = []
     return ir
 
 
@@ -532,8 +540,9 @@ def run(spec, R):
     nmut = 60 if tier == 'quick' else 600
     nrand = 60 if tier == 'quick' else 800
     prefix_done = 0
-    for uid in range(nuni):
-        ir = universe(spec['seed'], uid)
+    for uid in list(range(nuni)) + [9100]:
+        # (9100: the fixed three-level class tree with defaults, required attributes, bounded repeats)
+        ir = universe(spec['seed'], uid) if uid != 9100 else inheritance_universe()
         try:
             T = Target(ir, kind, validator, rng, spec.get('out'))
         except Exception as e:
